@@ -1,5 +1,6 @@
 import BB.Driver.Util
 import BB.Model.Index
+import BB.Model.RecordCodec
 /-!
 Line-protocol driver of the C06 index model.
 
@@ -11,6 +12,9 @@ Line-protocol driver of the C06 index model.
     dump <slots>                    -> live records by slot
 -/
 open BB.Driver BB.Index BB.Gen
+
+def toU8s (bs : List Nat) : List UInt8 := bs.map UInt8.ofNat
+def ofU8s (bs : List UInt8) : List Nat := bs.map UInt8.toNat
 
 structure S where
   maxGet : Nat := 1
@@ -70,6 +74,22 @@ def step (s : S) (line : String) : S × String :=
         | none => none
       (s, if parts.isEmpty then "empty" else " ".intercalate parts)
     | none => (s, "bad-op")
+  | ["enc", seed, e, b, key, a, o, z] =>   -- serialise a record (on-disk record array)
+    match nat? seed, nat? e, nat? b, hexBytes? key, nat? a, nat? o, nat? z with
+    | some seed, some e, some b, some key, some a, some o, some z =>
+      (s, bytesHex (ofU8s (BB.RecordCodec.encode (UInt64.ofNat seed) ⟨e, b, toU8s key, a, o, z⟩)))
+    | _, _, _, _, _, _, _ => (s, "bad-op")
+  | "dec" :: bytes :: rest =>              -- dec <hex> [<epoch> <bfl> <idx> <seed>]: the resolver knows exactly that reference
+    match hexBytes? bytes, allNats? rest with
+    | some bytes, some r =>
+      let resolve : Nat → Nat → Option (Nat × UInt64) := fun e b =>
+        match r with
+        | [e', b', idx, seed] => if e = e' ∧ b = b' then some (idx, UInt64.ofNat seed) else none
+        | _ => none
+      match BB.RecordCodec.decode resolve (toU8s bytes) with
+      | some (rc, idx) => (s, s!"{rc.epoch} {rc.blocksFromLast} {bytesHex (ofU8s rc.key)} {rc.attempt} {rc.off} {rc.size} {idx}")
+      | none => (s, "invalid")
+    | _, _ => (s, "bad-op")
   | _ => (s, "bad-op")
 
 def main : IO Unit := loop step {}
